@@ -342,10 +342,11 @@ def run(ctx):
     ctx.guarded('C12-D6', 'dobs@misc', d6_misc, ctx, m)
     ctx.rule('C12-D7', 'sample reconstruction (delta + own replica mean); gradient table orientation')
     ctx.guarded('C12-D7', 'dobs@samples', d7_samples, ctx, m)
-    from .. import unusedparams
-    ctx.rule('C12-D8', 'every accepted option is read (no silently ignored parameter)')
+    from .. import unusedparams, leakedloop
+    ctx.rule('C12-D8', 'every accepted option is read (no silently ignored parameter); no loop variable read after its loop')
     for mn_ in ('input.dobs',):
         ctx.guarded('C12-D8', mn_ + '@parameters', unusedparams.check, ctx, 'C12-D8', ctx.repo.mod(mn_))
+        ctx.guarded('C12-D8', mn_ + '@loop-variables', leakedloop.check, ctx, 'C12-D8', ctx.repo.mod(mn_))
 
     from .. import forwarding
     for w_, c_ in (('read_dobs', 'import_dobs_string'), ('write_dobs', 'create_dobs_string'), ('write_pobs', 'create_pobs_string')):
